@@ -19,4 +19,5 @@ Definition spec_round_pow2 (w i : Z) : Z := if i =? 0 then 1 else pow2_ceil i.
    (Zpow_facts.Zpow_mod_correct : n <> 0 -> Zpow_mod a m n = a ^ m mod n) *)
 Definition spec_ipow (w b e : Z) : Z := Zpow_mod b e (2 ^ w).
 
-Separate Extraction run_round_pow2 run_ipow spec_round_pow2 spec_ipow.
+Definition keep_number_types (z : Z) (n : N) (k : nat) := (z, n, k).
+Separate Extraction run_round_pow2 run_ipow spec_round_pow2 spec_ipow keep_number_types.
